@@ -97,21 +97,21 @@ Qed.
 
 Lemma tags_if_found_table_way st fk fv wc old :
   tags_if_found st fk fv wc old
-  = if forallb (wflag fk fv) (use_flags way_rules "call:scanTags")
+  = if forallb (wflag fk fv) (use_flags way_rules "set:Way.Tags")
     then match c_keys wc, c_vals wc with Some ks, Some vs => scan_tags st ks vs | _, _ => Panic end
     else Ok old.
 Proof. destruct fk, fv; reflexivity. Qed.
 
 Lemma tags_if_found_table_rel st fk fv fr fm ft wc old :
   tags_if_found st fk fv wc old
-  = if forallb (rflag fk fv fr fm ft) (use_flags rel_rules "call:scanTags")
+  = if forallb (rflag fk fv fr fm ft) (use_flags rel_rules "set:Relation.Tags")
     then match c_keys wc, c_vals wc with Some ks, Some vs => scan_tags st ks vs | _, _ => Panic end
     else Ok old.
 Proof. destruct fk, fv; reflexivity. Qed.
 
 Lemma members_if_found_table st fk fv fr fm ft wc old :
   members_if_found st fr fm ft wc old
-  = if forallb (rflag fk fv fr fm ft) (use_flags rel_rules "call:extractMembers")
+  = if forallb (rflag fk fv fr fm ft) (use_flags rel_rules "set:Relation.Members")
     then match c_roles wc, c_memids wc, c_types wc with
          | Some a, Some b, Some c => extract_members st a b c | _, _, _ => Panic end
     else Ok old.
